@@ -22,6 +22,9 @@ func init() {
 			rulePoolsAppendOnly(c, "C01.6")
 			ruleLaneIntegrity(c, "C01.6")
 			ruleEveryStmtEmittedInPlace(c, "C01.6")
+			ruleExprListsFresh(c, "C01.3")
+			ruleWhoMayCall(c, "C01.7", "(*InjectorParam).Ref", "reference counts and channel flags are decided while the graph is built (Build), never while code is emitted", "(*Graph).Build")
+			ruleWhoMayCall(c, "C01.7", "(*InjectorProviderCallStmt).channelsWait", "a wait is emitted only by a provider statement for its own arguments", "(*InjectorProviderCallStmt).Stmt")
 			coRun(c, "C01.8", coRace)
 		},
 		explanation: "GS (all generator inputs, emission discipline): inside every producer statement the wait is appended before the provider call and the close after it; done-channels are declared, awaited and closed under one predicate (truth tables over the guarding atoms, exhaustively enumerated); IsWait=false implies same pool or already-provided (exhaustive table over pool indices in {-1,0,1}); InjectorParam.Ref keeps the channel flag sticky; shared variables are assigned with = whenever the injector predeclares them; each dependency edge is recorded in both directions in one block, the topological counter is len(reverseEdges); every built pool is marked processed; argument/wait collection loops have no early exit. " +
@@ -48,6 +51,9 @@ func init() {
 			rulePoolsAppendOnly(c, "C03.7")
 			ruleLaneIntegrity(c, "C03.7")
 			ruleEveryStmtEmittedInPlace(c, "C03.5")
+			ruleExprListsFresh(c, "C03.1")
+			ruleWhoMayCall(c, "C03.1", "(*InjectorParam).Ref", "reference counts and channel flags are decided while the graph is built (Build), never while code is emitted", "(*Graph).Build")
+			ruleWhoMayCall(c, "C03.1", "(*InjectorProviderCallStmt).channelsWait", "a wait is emitted only by a provider statement for its own arguments", "(*InjectorProviderCallStmt).Stmt")
 			ruleCallerLaneChoice(c, "C03.7")
 			coRun(c, "C03.6", coTermination)
 		},
@@ -70,7 +76,9 @@ func init() {
 			ruleClosedEmission(c, "C05.7")
 			rulePoolsAppendOnly(c, "C05.8")
 			ruleLaneIntegrity(c, "C05.8")
+			ruleProviderCallOnlyInItsStatement(c, "C05.10")
 			ruleSourcesSeededFirst(c, "C05.9")
+			ruleArgminOverCandidates(c, "C05.9")
 			ruleSchedulerReadsAsyncFlag(c, "C05.9")
 			ruleEveryStmtEmittedInPlace(c, "C05.2")
 			coRun(c, "C05.4", coParallel)
@@ -95,6 +103,8 @@ func init() {
 			ruleErrorCheckTemplates(c, "C06.7")
 			ruleClosedEmission(c, "C06.8")
 			ruleHandlerDiscipline(c, "C06.9")
+			ruleWhoMayCall(c, "C06.11", "(*InjectorParam).Ref", "reference counts and channel flags are decided while the graph is built (Build), never while code is emitted", "(*Graph).Build")
+			ruleWhoMayCall(c, "C06.11", "(*InjectorProviderCallStmt).channelsWait", "a wait is emitted only by a provider statement for its own arguments", "(*InjectorProviderCallStmt).Stmt")
 			ruleWaitCheckedWhenFallible(c, "C06.10")
 			coRun(c, "C06.4", coErrors)
 		},
@@ -115,6 +125,10 @@ func init() {
 			ruleParamsNamedFirst(c, "C07.5")
 			ruleClosedEmission(c, "C07.6")
 			ruleHandlerDiscipline(c, "C07.7")
+			ruleDoneAndErrSameContext(c, "C07.9")
+			ruleHandlerNeverNil(c, "C07.1")
+			ruleWhoMayCall(c, "C07.9", "(*InjectorParam).Ref", "reference counts and channel flags are decided while the graph is built (Build), never while code is emitted", "(*Graph).Build")
+			ruleWhoMayCall(c, "C07.9", "(*InjectorProviderCallStmt).channelsWait", "a wait is emitted only by a provider statement for its own arguments", "(*InjectorProviderCallStmt).Stmt")
 			ruleWaitCheckedWhenFallible(c, "C07.3")
 			ruleSameContextPredicate(c, "C07.4")
 			ruleTemplatesNotPatched(c, "C07.8")
@@ -139,6 +153,8 @@ func init() {
 			ruleSameContextPredicate(c, "C08.7")
 			ruleTemplatesNotPatched(c, "C08.8")
 			ruleCallerLaneChoice(c, "C08.9")
+			ruleSourcesSeededFirst(c, "C08.10")
+			ruleArgminOverCandidates(c, "C08.10")
 			coRun(c, "C08.3", coLeaks)
 		},
 		explanation: "GS: every return template that can sit at injector level is either preceded by eg.Wait or emitted only without goroutines; goroutine bodies contain only escapable waits (their handler is the constant goroutine-level one, every wait gets its ctx.Done() case whenever some argument is a context, and the errgroup is derived from that context so a failure wakes the waiters). CO: for each early return of the 36 injectors, the goroutines that can still be parked on a barrier only the returning thread would lower.",
